@@ -56,24 +56,24 @@ PatternsAt(n) ==
     IN { base, [base EXCEPT ![2] = "null"] } \cup
        (IF Family = "lb" THEN { [base EXCEPT ![2] = "null", ![4] = "konly"], [base EXCEPT ![1] = "konly"] } ELSE {}) \cup
        (IF n >= 6 THEN { [base EXCEPT ![3] = "null", ![6] = "null"] } ELSE {})
-Scales == { ROne, Q(2,1), Q(1,2) }
+Scales(c) == IF Thorough /\ NZ(c) > 0 THEN { ROne } ELSE { ROne, Q(2,1), Q(1,2) }
 F1 == UNION { UNION { { MkProblem(n, c, Canon1(NB(c)), ROne), MkProblem(n, c, Canon2(NB(c)), ROne) }
                        : c \in ClsVecs(n) } : n \in 3..NPlace }
 F2 == UNION { UNION { { MkProblem(n, c, S, s) : S \in { T \in SUBSET (1..NA) : Cardinality(T) = NB(c) },
-                                                s \in Scales }
-                       : c \in PatternsAt(n) } : n \in (IF Thorough THEN {5, 6} ELSE {5}) }
+                                                s \in Scales(c) }
+                       : c \in PatternsAt(n) } : n \in {5} }
 
-Nums(n, tag) == IF Thorough THEN 1..(n + 2)
+Nums(n, tag) == IF Thorough THEN (IF n >= 6 THEN {1, n - 1, n + 2} ELSE {1, 2, 3, n - 1, n, n + 2})
                 ELSE IF tag = "place" THEN {1, n - 1, n + 2} ELSE {1, 3, n - 1, n + 2}
 OptsFor(p, tag) ==
     IF Family = "lb"
-    THEN [api : IF tag = "place" /\ ~Thorough THEN {"lb"} ELSE {"lb", "panel_lb"}, sparse : BOOLEAN,
+    THEN [api : IF tag = "place" /\ (~Thorough \/ p.n >= 6) THEN {"lb"} ELSE {"lb", "panel_lb"}, sparse : BOOLEAN,
           num : Nums(p.n, tag), sort : {FALSE}, reduced : {FALSE}, pos : {0}]
-         \cup (IF tag = "place" /\ ~Thorough THEN {}
+         \cup (IF tag = "place" /\ (~Thorough \/ p.n >= 6) THEN {}
                ELSE [api : {"conecyl_lb"}, sparse : {TRUE}, num : Nums(p.n, tag), sort : {FALSE}, reduced : {FALSE}, pos : {3}])
-    ELSE [api : IF tag = "place" /\ ~Thorough THEN {"freq"} ELSE {"freq", "panel_freq"}, sparse : {TRUE},
+    ELSE [api : IF tag = "place" /\ (~Thorough \/ p.n >= 6) THEN {"freq"} ELSE {"freq", "panel_freq"}, sparse : {TRUE},
           num : Nums(p.n, tag), sort : BOOLEAN, reduced : {FALSE}, pos : {0}]
-         \cup [api : IF tag = "place" /\ ~Thorough THEN {"freq"} ELSE {"freq", "panel_freq"}, sparse : {FALSE},
+         \cup [api : IF tag = "place" /\ (~Thorough \/ p.n >= 6) THEN {"freq"} ELSE {"freq", "panel_freq"}, sparse : {FALSE},
                num : {2}, sort : BOOLEAN, reduced : BOOLEAN, pos : {0}]
 
 (* F3 (frequency family): one mass column that sums to zero although it is not null; model level only *)
